@@ -180,7 +180,7 @@ def replay_cd_epoch(args, model):
     return dict(confirmed=bool(probs), detail='; '.join(probs) or f'contract holds natively (obj {o0} -> {o1})', inputs=inputs)
 
 
-FOCUS_PROP = {'inv': ['C01', 'C05', 'C19', 'C13'], 'frame': ['C18'], 'descent': ['C03'], 'feas': ['C04'], 'zero-col': ['C19']}
+FOCUS_PROP = {'inv': ['C01', 'C05', 'C19', 'C13', 'C20'], 'frame': ['C18'], 'descent': ['C03'], 'feas': ['C04'], 'zero-col': ['C19']}
 for _tag in PENS:
     for _sp in (False, True):
         for _f, _props in FOCUS_PROP.items():
